@@ -66,7 +66,9 @@ fn main() {
             let mut ranges: Vec<RangeRec> = vec![];
             let mut calls = 0u64;
             let mut broken = false;
-            let setup = catch(|| workspace::single_package(&mods));
+            // "shape": "no-package" - the modules belong to no package of the graph (a free-standing file)
+            let no_package = case["shape"] == "no-package";
+            let setup = catch(|| if no_package { workspace::gen_workspace(workspace::Shape::NoPackage, &mods) } else { workspace::single_package(&mods) });
             match setup {
                 Err(p) => local.push(json!({"kind": "mismatch", "prop": "C10", "features": {"what": "panic", "query": "load", "panic": p}, "detail": {"case": case}})),
                 Ok(ws) => {
